@@ -42,6 +42,7 @@ import (
 
 	gio "github.com/whatap/golib/io"
 	"github.com/whatap/golib/lang/pack"
+	"github.com/whatap/golib/util/compressutil"
 
 	"verif/vlib"
 )
@@ -837,6 +838,76 @@ func main() {
 	c.ParallelCases("held-parallel", nHeldPar, 8, func(i int, r *vlib.Rand) {
 		name := names[int(vlib.Mix(uint64(i))%uint64(len(names)))]
 		heldPackCase(fmt.Sprintf("held-parallel#%d", i), name, names, r, true)
+	})
+	// Concurrent decoders of compressed containers: every goroutine decodes ITS OWN zipped packs
+	// (every record carries the case's marker) over and over; what GetRecords returns must be
+	// exactly its own records, whatever the other goroutines are inflating at the same moment.
+	c.ParallelCases("zip-parallel", c.N(64, 640), 8, func(i int, r *vlib.Rand) {
+		marker := fmt.Sprintf("<case %d>", i)
+		nrec := r.Range(2, 40)
+		var recs []pack.Pack
+		for k := 0; k < nrec; k++ {
+			tp := pack.NewLogSinkPack()
+			tp.Line = int64(k)
+			tp.Content = marker + r.AsciiN(r.Range(0, 400)) + marker
+			recs = append(recs, tp)
+		}
+		zp := pack.NewZipPack().SetRecords(recs)
+		zp.Pcode, zp.Oid = int64(i), int32(i)
+		plain := append([]byte(nil), zp.Records...)
+		z, err := compressutil.DoZip(plain)
+		if err != nil {
+			return
+		}
+		zp.Records, zp.Status = z, pack.ZIPPED
+		enc := pack.ToBytesPack(zp)
+		var lrecs bytes.Buffer
+		for k := 0; k < nrec; k++ {
+			lp := pack.NewLogSinkPack()
+			lp.Category = marker
+			lp.Content = marker + r.AsciiN(r.Range(0, 400)) + marker
+			lp.Tags.PutString("m", marker)
+			lrecs.Write(pack.ToBytesPack(lp))
+		}
+		lz := pack.NewLogSinkZipPack()
+		lz.RecordCount = nrec
+		lz.SetRecords(lrecs.Bytes(), 1)
+		lenc := pack.ToBytesPack(lz)
+		for round := 0; round < 60; round++ {
+			var got []pack.Pack
+			var lgot []*pack.LogSinkPack
+			pv := vlib.Catch(func() {
+				got = pack.ToPack(enc).(*pack.ZipPack).GetRecords()
+				lgot = pack.ToPack(lenc).(*pack.LogSinkZipPack).GetRecords()
+			})
+			bad := ""
+			switch {
+			case pv != nil:
+				bad = fmt.Sprintf("decoding a complete compressed container of its own panicked: %v", pv)
+			case len(got) != nrec || len(lgot) != nrec:
+				bad = fmt.Sprintf("GetRecords returned %d / %d records, the containers hold %d", len(got), len(lgot), nrec)
+			default:
+				for k := range got {
+					tp, ok := got[k].(*pack.LogSinkPack)
+					if !ok || !strings.HasPrefix(tp.Content, marker) || !strings.HasSuffix(tp.Content, marker) || tp.Line != int64(k) {
+						bad = fmt.Sprintf("ZipPack record %d is not the record this goroutine compressed (marker %s)", k, marker)
+						break
+					}
+					if !strings.HasPrefix(lgot[k].Content, marker) || !strings.HasSuffix(lgot[k].Content, marker) || lgot[k].Category != marker {
+						bad = fmt.Sprintf("LogSinkZipPack record %d is not the record this goroutine compressed (marker %s)", k, marker)
+						break
+					}
+				}
+			}
+			if bad != "" {
+				c.Fail("ZipPack.GetRecords:foreign-or-damaged-records/concurrent-decoders", bad+" — while other goroutines were decoding their own compressed containers",
+					map[string]interface{}{"case": i, "round": round, "records": nrec})
+				return
+			}
+			c.Count("zip_parallel_decodes", 2)
+		}
+		c.Eval(59)
+		c.DistinctBytes(enc)
 	})
 	c.Note(fmt.Sprintf("manifest: %d types (%d registered packs, %d of them nested into containers), %d leaf patterns; environment variables read by lang/pack and its imports: %v", len(names), registered, len(nestedTypes), totalPatterns, envVars))
 
